@@ -5,8 +5,8 @@ B3: TLC explores spec/Store.tla over run histories (each run a separate process:
     (same streamed trace contents for every trace output by two runs, same selected shape classes in all unique-graph
     runs on the ingested store), UniqueExact, StreamExact, IngestExact.
 B2: run histories over one sqlite file, each run a separate (forked) process executing the real otel_to_pv with flags
-    from {ingest, no-ingest} x {ug on/off} x {save events on/off} on two data sets (one whose first-run cleaning removes
-    traces); TLC evaluates on the logged executions that every run completes, that any two runs give the same PV
+    from {ingest, no-ingest} x {ug on/off} x {save events on/off} on three data sets (one whose first-run cleaning removes
+    traces, one whose files contain re-delivered spans); TLC evaluates on the logged executions that every run completes, that any two runs give the same PV
     sequence for every trace both output (read from the saved files when events are saved), and that all
     unique-graph runs select the same shape classes; conformance to Store.tla is checked as well."""
 import store
@@ -45,7 +45,8 @@ def run(chk, tier, seed):
            "transitions": m["transitions"] + st.get("conf_generated", 0) + st.get("obs_generated", 0),
            "traces_validated_against_impl": n, "evaluations": n, "distinct_nontrivial": nontriv,
            "rule": "all histories of 1-2 runs (thorough: 1-4) over flags {ingest,no-ingest} x {ug} x {save events} that "
-                   "ingest at least once, plus seeded histories of 3-4 runs, on two data sets; every run is a separate "
+                   "ingest at least once, plus seeded histories of 3-4 runs, on three data sets (same shapes / cleaning removes traces / "
+                   "re-delivered spans in the files); every run is a separate "
                    "process on one sqlite file; non-trivial = history of at least two runs",
            "process_runs": sum(len(s["runs"]) for s in scns),
            "model_runs": m["runs"], "model_drift_executions": ndrift, "conformance_action_counts": st.get("actions", {}),
